@@ -36,7 +36,7 @@ def build(ctx):
 def cleanup_spec_dir():
     d = os.path.join(vlib.ROOT, SPEC)
     for f in os.listdir(d):
-        if '_TTrace_' in f:
+        if f.startswith(('MCTaskSet_TTrace_', 'TaskSetTrace_TTrace_')):
             try:
                 os.remove(os.path.join(d, f))
             except OSError:
